@@ -662,7 +662,7 @@ def event_record(ev):
         else:
             r['pl'] = codec.pv(bytes(t))
             r['cps'] = []
-    elif name == 'backoff':
+    elif name in ('backoff', 'back_off'):
         r['delay'] = rat(ev.delay)
     return r
 
@@ -853,6 +853,16 @@ def run_scenario(sc):
                 S.WebsocketSession.BUFFER_SIZE = sc['buffer_size']
             state['restore'] = saved
             pk = dict(sc.get('persist_kwargs') or {})
+            orig_connect = ws.connect
+
+            def logged_connect(*a, **k):
+                world.rec({"k": "connectcall", "poll": k.get('poll', -1), "ping_rate": k.get('ping_rate', -1),
+                           "ping_timeout": -1 if k.get('ping_timeout') is None else k.get('ping_timeout'),
+                           "other": sorted(x for x in k if x not in ('poll', 'ping_rate', 'ping_timeout'))})
+                if 'session_class' not in k:
+                    k['session_class'] = Session
+                return orig_connect(*a, **k)
+            ws.connect = logged_connect
             return P.persist(ws, exit_event=ExitEvent(world), **pk)
         return ws.connect(session_class=Session, **ck)
 
